@@ -3,7 +3,8 @@
 Require Import List Arith Bool Lia.
 Require Import Raft.Quorum Raft.QuorumProofs Raft.RaftModel Raft.RaftSys Raft.RaftLog Raft.RaftInv
                Raft.RaftInvBase Raft.RaftInvMain Raft.RaftRefine Raft.RaftSafety Raft.RaftStepProps Raft.RaftSafetySteps Raft.RaftCheck
-               Raft.RaftCC Raft.RaftCCCheck Raft.RaftCCRefine Raft.RaftCCSafety Raft.RaftCCQuorum.
+               Raft.RaftCC Raft.RaftCCCheck Raft.RaftCCRefine Raft.RaftCCSafety Raft.RaftCCQuorum
+               Raft.RaftPV Raft.RaftPVCheck Raft.RaftPVRefine.
 Import ListNotations.
 
 (* ------------------------------------------------------------------ quorum layer
@@ -433,3 +434,55 @@ Example C15_ex_conf_step : apply_cc ccx_boot (CcJoint 4 3) = Some (mkC [1; 2; 4]
   /\ apply_cc (mkC [1; 2; 4] [1; 2; 3] true) CcLeave = Some (mkC [1; 2; 4] [] false)
   /\ apply_cc ccx_boot (CcRemove 2) = Some (mkC [1; 3] [] false).
 Proof. repeat split. Qed.
+
+(* ------------------------------------------------------------------ Config.PreVote
+   Raft/RaftPV.v models raft with PreVote = true (pre-candidate, MsgPreVote, MsgPreVoteResp, the
+   term rules of raft.Step for them, the empty MsgAppResp sent to leaders of a lower term);
+   [pxstep c0 c1] is its transition relation, tied to the code by trace validation
+   (check_step_pv).  Pre-votes change no persisted state and their messages carry no authority:
+   every PreVote run is a run of the micro-step system, so all safety theorems hold with PreVote
+   (fixed membership; CheckQuorum is not modelled, only monitored). *)
+Theorem C15_prevote_transparent : forall c0 c1 F, In (c0, c1) F -> forall x, pxreachable c0 c1 x ->
+  exists s, mreachable F s /\ (forall y, nodes s y = fst (px_nodes x y)) /\ msgs s = base_of (px_msgs x).
+Proof.
+  intros c0 c1 F H x Hx. destruct (pv_sim c0 c1 F H x Hx) as (s & Hr & Hn & Hm & _).
+  exists s. split; [exact Hr|split; assumption].
+Qed.
+Print Assumptions C15_prevote_transparent.
+
+Theorem C15_pv_election_safety : forall c0 c1, (c0 <> [] \/ c1 <> []) ->
+  forall x, pxreachable c0 c1 x ->
+  forall a b, n_role (fst (px_nodes x a)) = Leader -> n_role (fst (px_nodes x b)) = Leader ->
+    n_term (fst (px_nodes x a)) = n_term (fst (px_nodes x b)) -> a = b.
+Proof. exact pv_election_safety. Qed.
+Print Assumptions C15_pv_election_safety.
+
+Theorem C15_pv_log_matching : forall c0 c1, (c0 <> [] \/ c1 <> []) ->
+  forall x, pxreachable c0 c1 x ->
+  forall a b i, 1 <= i -> i <= length (n_log (fst (px_nodes x a))) -> i <= length (n_log (fst (px_nodes x b))) ->
+    term_at (n_log (fst (px_nodes x a))) i = term_at (n_log (fst (px_nodes x b))) i ->
+    firstn i (n_log (fst (px_nodes x a))) = firstn i (n_log (fst (px_nodes x b))).
+Proof. exact pv_log_matching. Qed.
+Print Assumptions C15_pv_log_matching.
+
+Theorem C15_pv_state_machine_safety : forall c0 c1, (c0 <> [] \/ c1 <> []) ->
+  forall x, pxreachable c0 c1 x ->
+  forall a b i, i <= n_commit (fst (px_nodes x a)) -> i <= n_commit (fst (px_nodes x b)) ->
+    i <= length (n_log (fst (px_nodes x a))) /\ i <= length (n_log (fst (px_nodes x b))) /\
+    firstn i (n_log (fst (px_nodes x a))) = firstn i (n_log (fst (px_nodes x b))).
+Proof. exact pv_state_machine_safety. Qed.
+Print Assumptions C15_pv_state_machine_safety.
+
+Theorem C15_pv_leader_completeness : forall c0 c1, (c0 <> [] \/ c1 <> []) ->
+  forall x, pxreachable c0 c1 x ->
+  forall l y, n_role (fst (px_nodes x l)) = Leader -> n_term (fst (px_nodes x y)) <= n_term (fst (px_nodes x l)) ->
+    n_commit (fst (px_nodes x y)) <= length (n_log (fst (px_nodes x l))) /\
+    firstn (n_commit (fst (px_nodes x y))) (n_log (fst (px_nodes x l)))
+      = firstn (n_commit (fst (px_nodes x y))) (n_log (fst (px_nodes x y))).
+Proof. exact pv_leader_completeness. Qed.
+Print Assumptions C15_pv_leader_completeness.
+
+Theorem C15_check_step_pv_sound : forall c0 c1 x id ev obs_out obs obs_pre x',
+  check_step_pv c0 c1 x id ev obs_out obs obs_pre = PVOk x' -> pxstep c0 c1 x x'.
+Proof. exact check_step_pv_sound. Qed.
+Print Assumptions C15_check_step_pv_sound.
